@@ -62,6 +62,7 @@ REQUIRED = ["histories", "operations", "open_log_checks", "index_ops", "negative
             "eager_constructions", "eswc_populations", "eswc_populations_matched",
             "transform_outputs_without_source", "map_inside_map_checked",
             "protocol_only_containers", "populations_of_more_than_1024_files",
+            "callers_name_list_edited_after_construction",
             "audit_file_opens"]
 FLOOR = {"quick": 250, "thorough": 20000}
 SHARDS = {"quick": 8, "thorough": 16}
@@ -186,10 +187,21 @@ def check_history(ctx, case, tmp):
             # all at once when the caller says so
             names_ = Population.find_swcs(rt_)
             eager = ctor == "list-eager"
-            pop = Population(names_, root=rt_) if not eager else (
-                Population(names_, lazy_loading=False, root=rt_) if how else
-                Population(names_, False, rt_))
+            if ctor == "list-trees":
+                # the current spelling: the caller's own list of names wrapped in LazyLoadingTrees
+                from swcgeom.core.population import LazyLoadingTrees
+
+                pop = Population(LazyLoadingTrees(names_), root=rt_)
+            else:
+                pop = Population(names_, root=rt_) if not eager else (
+                    Population(names_, lazy_loading=False, root=rt_) if how else
+                    Population(names_, False, rt_))
             ctx.count("constructed_from_name_list")
+            # the list is the caller's: it goes on to use it (sorted the other way, emptied)
+            names_.reverse()
+            if case["seed"] % 2:
+                del names_[1:]
+            ctx.count("callers_name_list_edited_after_construction")
     listing = [os.path.relpath(p, root) for p in Population.find_swcs(root)]
     if sorted(listing) != sorted(files):
         return ctx.violation("listing-wrong", f"find_swcs lists {sorted(listing)[:5]}..., the "
@@ -895,8 +907,8 @@ def run(ctx):
             seed = int(rng.integers(0, 2**31 - 1))
             if u < 5:
                 case = {"kind": "history", "seed": seed, "nops": int(rng.integers(5, 61))}
-                if k % 20 in (1, 12):
-                    case["ctor"] = "list-lazy" if k % 20 == 1 else "list-eager"
+                if k % 20 in (1, 12, 16):
+                    case["ctor"] = {1: "list-lazy", 12: "list-eager", 16: "list-trees"}[k % 20]
                 if k % 40 == 23:
                     case = {"kind": "eswc", "seed": seed}
                 if k % 40 == 22:
